@@ -1181,7 +1181,13 @@ fn foreign_futex_wait(tid: i32, own: (usize, usize)) -> Option<String> {
     }
     let sc = std::fs::read_to_string(format!("/proc/self/task/{tid}/syscall")).ok()?;
     let mut it = sc.split_whitespace();
-    if it.next()? != "202" {
+    let nr = it.next()?;
+    if nr == "257" || nr == "2" {
+        // asleep inside open(2): a FIFO nobody writes to (regular files and directories on the
+        // scratch tmpfs never sleep there)
+        return Some(sc.trim().to_string());
+    }
+    if nr != "202" {
         return None;
     }
     let uaddr = usize::from_str_radix(it.next()?.trim_start_matches("0x"), 16).ok()?;
